@@ -9,14 +9,16 @@ import "github.com/karino2/folang/pkg/dict"
 type ScopeDict struct {
 	VarFacMap  dict.Dict[string, func([]FType, func() TypeVar) VarRef]
 	RecFacMap  dict.Dict[string, RecordFactory]
+	RecSeqMap  dict.Dict[string, int]
 	TypeFacMap dict.Dict[string, func([]FType) FType]
 }
 
 func NewScopeDict() ScopeDict {
 	fvm := dict.New[string, func([]FType, func() TypeVar) VarRef]()
 	rfm := dict.New[string, RecordFactory]()
+	rsm := dict.New[string, int]()
 	tfm := dict.New[string, func([]FType) FType]()
-	return ScopeDict{VarFacMap: fvm, RecFacMap: rfm, TypeFacMap: tfm}
+	return ScopeDict{VarFacMap: fvm, RecFacMap: rfm, RecSeqMap: rsm, TypeFacMap: tfm}
 }
 
 func NewScope0() Scope {
@@ -77,14 +79,28 @@ func scRegisterType(s Scope, name string, ftype FType) {
 
 func scRegisterRecFac(s Scope, name string, fac RecordFactory) {
 	sdic := SCSDict(s)
+	frt.IfOnly(frt.OpNot(dict.ContainsKey(sdic.RecSeqMap, name)), (func() {
+		frt.PipeUnit(frt.Pipe(dict.Keys(sdic.RecSeqMap), slice.Length), (func(_r0 int) { dict.Add(sdic.RecSeqMap, name, _r0) }))
+	}))
 	dict.Add(sdic.RecFacMap, name, fac)
 	dict.Add(sdic.TypeFacMap, name, (func(_r0 []FType) FType { return GenRecordFType(fac, _r0) }))
 }
 
+func recFacSeq(sdic ScopeDict, rf RecordFactory) int {
+	return dict.Item(sdic.RecSeqMap, rf.Name)
+}
+
 func scLookupRecFacCur(s Scope, fieldNames []string) frt.Tuple2[RecordFactory, bool] {
 	sdic := SCSDict(s)
-	return frt.Pipe(dict.Values(sdic.RecFacMap), (func(_r0 []RecordFactory) frt.Tuple2[RecordFactory, bool] {
-		return slice.TryFind((func(_r0 RecordFactory) bool { return recFacMatch(fieldNames, _r0) }), _r0)
+	cands := frt.Pipe(frt.Pipe(dict.Values(sdic.RecFacMap), (func(_r0 []RecordFactory) []RecordFactory {
+		return slice.Filter((func(_r0 RecordFactory) bool { return recFacMatch(fieldNames, _r0) }), _r0)
+	})), (func(_r0 []RecordFactory) []RecordFactory {
+		return slice.SortBy((func(_r0 RecordFactory) int { return recFacSeq(sdic, _r0) }), _r0)
+	}))
+	return frt.IfElse(slice.IsEmpty(cands), (func() frt.Tuple2[RecordFactory, bool] {
+		return frt.NewTuple2(frt.Empty[RecordFactory](), false)
+	}), (func() frt.Tuple2[RecordFactory, bool] {
+		return frt.NewTuple2(slice.Last(cands), true)
 	}))
 }
 
